@@ -3,28 +3,30 @@
 (* The `hex` subcommand.  Encode: "0x" lower-case digits and a newline.    *)
 (* Decode: input must be UTF-8; whitespace anywhere is ignored; one        *)
 (* optional "0x" prefix; an even number of hex digits of either case.      *)
-(* Result [c |-> "accept"|"reject"|"either", v].  Open: "0X" prefix and    *)
-(* Unicode whitespace beyond ASCII.  Anchors: src/cmd/hex.rs, src/cmd.rs.  *)
+(* Result [c |-> "accept"|"reject"|"open", v].  Open: the "0X" prefix.      *)
+(* Anchors: src/cmd/hex.rs, src/cmd.rs.                                    *)
 (***************************************************************************)
 EXTENDS Bytes, Prim
 
 HexEncodeOut(b) == <<48, 120>> \o HexLower(b) \o <<10>>
 
+\* whitespace ignored anywhere: the Unicode White_Space characters (what `char::is_whitespace` tests)
 AsciiWs == {9, 10, 11, 12, 13, 32}
+OtherWsCps == {133, 160, 5760, 8232, 8233, 8239, 8287, 12288} \cup (8192..8202)
 \* UTF-8 validity is decided by the primitive converter: decoding and re-encoding is the identity
 IsUtf8(bs) == StrToUtf8(Utf8ToStr(bs)) = bs
-HasOtherWs(bs) ==
-  \E i \in 1..Len(bs) : bs[i] >= 128 /\ LET cps == StrToCps(Utf8ToStr(bs)) IN
-     \E k \in 1..Len(cps) : cps[k] \in ({133, 160, 5760, 8232, 8233, 8239, 8287, 12288} \cup (8192..8202))
+\* drop every whitespace character; works on code points so that multi-byte spaces are removed whole
+StripWs(bs) ==
+  IF \A i \in 1..Len(bs) : bs[i] < 128 THEN SelectSeq(bs, LAMBDA ch : ch \notin AsciiWs)
+  ELSE StrToUtf8(CpsToStr(SelectSeq(StrToCps(Utf8ToStr(bs)), LAMBDA cp : cp \notin AsciiWs \cup OtherWsCps)))
 
 HexDecodeClass(bs) ==
   IF ~IsUtf8(bs) THEN [c |-> "reject", v |-> <<>>]
   ELSE
-  LET t    == SelectSeq(bs, LAMBDA ch : ch \notin AsciiWs)
+  LET t    == StripWs(bs)
       pre  == Len(t) >= 2 /\ t[1] = 48 /\ t[2] \in {120, 88}
       body == IF pre THEN SubSeq(t, 3, Len(t)) ELSE t
-      open == (pre /\ t[2] = 88) \/ HasOtherWs(bs)
-  IN  IF open THEN [c |-> "open", v |-> <<>>]
+  IN  IF pre /\ t[2] = 88 THEN [c |-> "open", v |-> <<>>]                      \* "0X": an open spelling
       ELSE IF ~AllHex(body) \/ Len(body) % 2 = 1 THEN [c |-> "reject", v |-> <<>>]
       ELSE [c |-> "accept", v |-> HexPairs(body)]
 =============================================================================
